@@ -289,9 +289,9 @@ PROPS["C04"] = dict(
     jobs=[
         K("c04::c04_validate_record_44", encodes="validate_integrity: which attribute is checked, HMAC input = message up to it with rewritten length, expected = its value, key = password, verdict = MAC verdict, missing attribute reported",
           bounds="len <= 44 (fits [MI], [X, SHA256/16], [SHA256/16..24]), <= 2 attributes, password <= 3 bytes", mem=26, timeout=3000,
-          unwindset=[["stun-types/src/message.rs", "validate_integrity", 3], ["kani/src/refdec.rs", "refdec", 14], ["id:memcmp", "*", 34]]),
+          unwindset=[["stun-types/src/message.rs", "validate_integrity", 3], ["kani/src/refdec.rs", "refdec", 14], ["raw:memcmp.0", "*", 34]]),
         K("c04::c04_validate_record", T, encodes="same with both integrity attributes in one message", bounds="len <= 64, <= 2 attributes, password <= 3 bytes", mem=45, timeout=7200,
-          unwindset=[["stun-types/src/message.rs", "validate_integrity", 3], ["kani/src/refdec.rs", "refdec", 14], ["id:memcmp", "*", 34]]),
+          unwindset=[["stun-types/src/message.rs", "validate_integrity", 3], ["kani/src/refdec.rs", "refdec", 14], ["raw:memcmp.0", "*", 34]]),
         K("c04::c04_long_term_key", encodes="long-term key == MD5(user:realm:password) (independent value)", bounds="credentials user/realm/pass", mem=10, timeout=2400),
         K("c04::c04_verify_sha1_all_expected", encodes="MessageIntegrity::verify(d,k,e) is Ok iff e == HMAC-SHA1(k,d) (independent value), compute returns it", bounds="all 2^160 e, fixed d (28 bytes) and k", mem=16, timeout=3000),
         K("blayout::c03_layout_l2_mi", T, encodes=_LAY_ENC + " [C04 builder side, SHA-1]", bounds="all contents", mem=40, timeout=7200),
@@ -369,7 +369,7 @@ PROPS["C01"] = dict(
         K("c01::c01_policing_any_class_24", T, encodes="check_attribute_types on every accepted message of ANY class (<= 1 attribute) with symbolic supported/required lists: no panic", bounds="len 0..=24, lists <= 1",
           mem=30, timeout=5400, unwindset=_POLICE_UW),
         K("c04::c04_validate_record_44", T, encodes="validate_integrity with arbitrary short-term credentials: no panic, unreachable!() not reached (quick tier: C04's check runs this harness; 20+ min)", bounds="len <= 44, <= 2 attributes", mem=26, timeout=3000,
-          unwindset=[["stun-types/src/message.rs", "validate_integrity", 3], ["kani/src/refdec.rs", "refdec", 14], ["id:memcmp", "*", 34]]),
+          unwindset=[["stun-types/src/message.rs", "validate_integrity", 3], ["kani/src/refdec.rs", "refdec", 14], ["raw:memcmp.0", "*", 34]]),
         S("smt::stun-types", encodes="MIR->SMT: no checked-arithmetic site of the message/attribute length code can overflow for sizes up to 70000 / messages up to 65555 bytes", bounds="root ranges of smt/contracts.json",
           crate="stun-types", min_sites=20),
     ] + [K("c08::c08_" + n, encodes="T::from_raw on arbitrary raw attributes: no panic", bounds="as C08", mem=6) for n in _C08_DECODE]
